@@ -32,7 +32,8 @@ theorem ite_true_iff (c : Prop) [Decidable c] (a b : Bool) :
     `omega` decides the equivalence) -/
 theorem c02_crates_ast (r : Crates.Req) (x : Version) :
     Crates.satisfiesReq r x = (match toRefC r with | some c => matchesComparator c x | none => true) := by
-  cases r with
+  induction r with
+  | anchored r a ih => simp only [Crates.satisfiesReq, toRefC]; exact ih
   | any => rfl
   | wildcardMajor m =>
     simp only [Crates.satisfiesReq, toRefC, matchesComparator, matchesExact, Bool.and_true]
@@ -94,8 +95,31 @@ theorem c02_crates_spec_ast (rs : List Crates.Req) (x : Version) :
     | none => simp
     | some c => simp
 
+/-- a comparator with a partial operand matches exactly what the comparator on floors matches that the code builds for
+    it (`>1` is `>=2.0.0-0`, `<=1.2` is `<1.3.0-0`, `=1.2`, `~1.2` are `1.2.*`, `^1.2` is `^1.2.0-0`, `0` is `0.*`) -/
+theorem matches_normC (c : Comparator) (x : Version) (hx : PreFloor x.pre) :
+    matchesComparator (normC c) x = matchesComparator c x := by
+  have hfl := floor_not_lt x.pre hx
+  have hle := ordNum_le (cmpPre x.pre ['0'])
+  obtain ⟨op, M, minor, patch, pre⟩ := c
+  cases op <;> cases minor <;> cases patch <;> simp only [normC, floorC] <;> (try split) <;>
+    simp only [matchesComparator, matchesExact, matchesGreater, matchesLess, matchesTilde, matchesCaret] <;>
+    first
+      | rfl
+      | (rw [Bool.eq_iff_iff]
+         simp only [ite_true_iff, bne_iff_ne, ne_eq, decide_eq_true_eq, preGt_iff, preLt_iff, preGe_iff, Bool.false_eq_true,
+           Bool.or_eq_true, Bool.and_eq_true, beq_iff_eq, cmpPre_eq_iff, and_false, false_or, or_false, and_true, true_and, Decidable.not_not,
+           ge_iff_le, gt_iff_lt, false_and, not_false_eq_true, not_true_eq_false, Bool.and_true, Bool.true_and, Bool.and_false,
+           Bool.false_and] <;> omega)
+
+theorem all_normC (r : List Comparator) (x : Version) (hx : PreFloor x.pre) :
+    ((r.map normC).all fun c => matchesComparator c x) = r.all fun c => matchesComparator c x := by
+  induction r with
+  | nil => rfl
+  | cons c rest ih => simp only [List.map_cons, List.all_cons, matches_normC c x hx, ih]
+
 /-- from one evaluation to all candidates, as for npm -/
-theorem c02_crates_same_reading (spec : Text) (h : sameReadingCrates spec = "same") (x : Version) :
+theorem c02_crates_same_reading (spec : Text) (h : sameReadingCrates spec = "same") (x : Version) (hx : PreFloor x.pre) :
     ∃ s r, Crates.parseSpec spec = some s ∧ CargoReq.parse spec = some r ∧ Crates.satisfies s x = CargoReq.sat r x := by
   unfold sameReadingCrates at h
   cases hs : Crates.parseSpec spec with
@@ -106,11 +130,13 @@ theorem c02_crates_same_reading (spec : Text) (h : sameReadingCrates spec = "sam
     | some r =>
       rw [hs, hr] at h
       simp only at h
-      have heq : reqsRef s = r := by
-        by_cases hq : (reqsRef s == r) = true
+      have heq : reqsRef s = r.map normC := by
+        by_cases hq : (reqsRef s == r.map normC) = true
         · exact eq_of_beq hq
         · rw [if_neg hq] at h; simp at h
-      exact ⟨s, r, rfl, rfl, by rw [c02_crates_spec_ast s x, heq]⟩
+      refine ⟨s, r, rfl, rfl, ?_⟩
+      rw [c02_crates_spec_ast s x, heq]
+      exact all_normC r x hx
 
 example : Crates.satisfiesReq (.caret ⟨0, 0, 3, [], []⟩) ⟨0, 0, 3, [], []⟩ = true ∧
     matchesComparator (fullC .caret ⟨0, 0, 3, [], []⟩) ⟨0, 0, 3, [], []⟩ = true := by decide
